@@ -208,6 +208,29 @@ pub fn run(cfg: &Cfg, rep: &mut Rep) {
             check_from(rep, &w, x, dy, su);
         }
     }
+    // binary and decimal thresholds of the dynamical reading itself and of TAI-past-J2000 (neither is a threshold of the
+    // count the epoch is held with): +-40 s around each, every second and a few nanoseconds either side
+    for dy in dyns {
+        for thr in [1i128 << 63, 1i128 << 62, 1i128 << 64, 1i128 << 53, 1_000_000_000_000_000_000, 10_000_000_000_000_000_000, NPC, 2 * NPC, 3 * NPC, 50 * NPC] {
+            for sign in [1i128, -1] {
+                for sec in -40i128..=40 {
+                    i += 1;
+                    if i % n != sh {
+                        continue;
+                    }
+                    rep.class("reading-threshold");
+                    for dn in [-1i128, 0, 1, 500_000_000] {
+                        let rd = sign * thr + sec * NS_S + dn;
+                        let su = UNIFORM[(sec.rem_euclid(6)) as usize];
+                        check(rep, &w, w.to_tai(rd, dy), su, dy);
+                        check_from(rep, &w, rd, dy, su);
+                        // the same distance from J2000 counted in TAI
+                        check(rep, &w, j2k + rd, su, dy);
+                    }
+                }
+            }
+        }
+    }
     let mut r = Rng::new(cfg.seed, 0x0700 + sh as u64);
     let nrand = cfg.budget(3_000_000);
     let lat = gen::reading_lattice(TimeScale::TAI, &w.leap);
